@@ -310,3 +310,53 @@ package allocation
 //@   ensures [C20:even] res1 == nil ==> res0 % 2 == 0
 //@   assigns socketsOpened, socketsClosed
 //@   loop 0 invariant socketsOpened - socketsClosed == old(socketsOpened - socketsClosed) && m.allocatePacketConn != nil
+
+//@      // ---- RFC 6062 peer data connections (C16)
+//@ spec func allocsNonNil(m *Manager) bool = forall k :: haskey(m.allocations, k) ==> valat(m.allocations, k) != nil
+//@ spec func sameTCPPeer(c net.Conn, remote *net.TCPAddr) bool = !typeis(remoteAddrOf(c), *net.TCPAddr) || (ipStr(remoteAddrOf(c).(*net.TCPAddr).IP) == ipStr(remote.IP) && remoteAddrOf(c).(*net.TCPAddr).Port == remote.Port)
+
+//@ func (*Manager).isDupeTCPConnection
+//@   requires allocation != nil && remoteAddr != nil && tcpConnsWF(allocation)
+//@   pure
+//@   ensures [C16:dupe-iff] res ==> exists k :: haskey(allocation.tcpConnections, k) && sameTCPPeer(valat(allocation.tcpConnections, k).Conn, remoteAddr)
+//@   ensures [C16:dupe-complete] !res ==> forall k :: haskey(allocation.tcpConnections, k) ==> !sameTCPPeer(valat(allocation.tcpConnections, k).Conn, remoteAddr)
+//@   loop 0 invariant tcpConnsWF(allocation) && forall k :: seenkey(k) ==> !sameTCPPeer(valat(allocation.tcpConnections, k).Conn, remoteAddr)
+
+//@ func (*Allocation).RemoveTCPConnection
+//@   requires m != nil && tcpConnsWF(a) && a.log != nil
+//@   ensures [C15,C16:removed] !has(a.tcpConnections, connectionID)
+//@   ensures [C15,C16:closed-once] socketsClosed == old(socketsClosed) + (old(has(a.tcpConnections, connectionID)) ? 1 : 0)
+//@   assigns entries(a.tcpConnections), socketsClosed, timers
+
+//@ func (*Manager).addTCPConnection$1
+//@   requires tcpConn != nil && m != nil && m.log != nil && allocation != nil && tcpConnsWF(allocation) && allocation.log != nil
+//@   ensures [C16:bind-deadline] !old(atomic(tcpConn.isBound)) ==> !has(allocation.tcpConnections, connectionID)
+//@   ensures [C16:bound-kept] old(atomic(tcpConn.isBound)) ==> socketsClosed == old(socketsClosed)
+
+//@ func (*Manager).addTCPConnection
+//@   requires allocation != nil && conn != nil && allocation.tcpConnections != nil && tcpConnsWF(allocation) && allocsNonNil(m)
+//@   ensures [C16:unique-id] res1 == nil ==> forall k :: haskey(m.allocations, k) ==> !old(has(valat(m.allocations, k).tcpConnections, res0))
+//@   ensures [C16:installed] res1 == nil ==> has(allocation.tcpConnections, res0) && allocation.tcpConnections[res0].Conn == conn && !atomic(allocation.tcpConnections[res0].isBound) && timerSet(allocation.tcpConnections[res0].bindTimer, int(m.tcpConnectionBindTimeout))
+//@   ensures [C16:expiry-action] res1 == nil ==> clofn(timerfn(allocation.tcpConnections[res0].bindTimer)) == fnid("(*Manager).addTCPConnection$1")
+//@   ensures [C16:no-dupe] res1 == nil ==> typeis(remoteAddrOf(conn), *net.TCPAddr) && forall k :: old(haskey(allocation.tcpConnections, k)) ==> !sameTCPPeer(old(valat(allocation.tcpConnections, k)).Conn, remoteAddrOf(conn).(*net.TCPAddr))
+//@   ensures [C16:fail-unchanged] res1 != nil ==> forall k :: haskey(allocation.tcpConnections, k) == old(haskey(allocation.tcpConnections, k))
+//@   ensures tcpConnsWF(allocation)
+//@   assigns entries(allocation.tcpConnections), timers
+//@   loop 0 invariant allocsNonNil(m) && tcpConnsWF(allocation) && forall k :: seenkey(k) ==> !has(valat(m.allocations, k).tcpConnections, connectionID)
+
+//@ func (*Manager).CreateTCPConnection
+//@   requires allocation != nil && m.log != nil && m.allocateConn != nil && allocation.tcpConnections != nil && tcpConnsWF(allocation) && allocsNonNil(m)
+//@   requires [C03:authed] authOK && allocation.userID == authUser
+//@   requires [C01:granted] granted[ipStr(peerAddress.IP)]
+//@   ensures [C16:errors] res1 == nil || res1 == errInvalidPeerAddress || res1 == ErrTCPConnectionTimeoutOrFailure || res1 == ErrDupeTCPConnection || res1 == errFailedToGenerateConnectionID || res1 != nil
+//@   ensures [C16:installed] res1 == nil ==> has(allocation.tcpConnections, res0) && !atomic(allocation.tcpConnections[res0].isBound)
+//@   ensures [C15,C16:fail-no-leak] res1 != nil ==> socketsOpened - socketsClosed == old(socketsOpened - socketsClosed) && forall k :: haskey(allocation.tcpConnections, k) == old(haskey(allocation.tcpConnections, k))
+//@   ensures [C16:ok-one-socket] res1 == nil ==> socketsOpened - socketsClosed == old(socketsOpened - socketsClosed) + 1
+//@   ensures tcpConnsWF(allocation)
+//@   assigns entries(allocation.tcpConnections), timers, socketsOpened, socketsClosed
+
+//@ func (*Manager).GetTCPConnection
+//@   requires allocsNonNil(m) && forall k :: haskey(m.allocations, k) ==> tcpConnsWF(valat(m.allocations, k))
+//@   requires [C03:authed] authOK && userID == authUser
+//@   ensures [C03,C16:single-use] res != nil ==> exists k :: haskey(m.allocations, k) && valat(m.allocations, k).userID == userID && has(valat(m.allocations, k).tcpConnections, connectionID) && res == valat(m.allocations, k).tcpConnections[connectionID] && !old(atomic(valat(m.allocations, k).tcpConnections[connectionID].isBound)) && atomic(valat(m.allocations, k).tcpConnections[connectionID].isBound)
+//@   loop 0 invariant allocsNonNil(m) && (forall k :: haskey(m.allocations, k) ==> tcpConnsWF(valat(m.allocations, k)))
